@@ -731,10 +731,10 @@ func init() {
 		},
 		Subs: []core.Sub{
 			// order: the sub-checks with few expected reports first (the supervisor keeps the first 2000 violations)
-			{Name: "index", N: core.Const(150, 1000), Run: runIndex},
-			{Name: "identify", N: core.Const(100, 600), Run: runIdentify, Race: true, NRace: core.Const(6, 24)},
-			{Name: "closest2", N: core.Const(150, 1000), Run: runClosestWith(obitag2.FindClosests, true)},
-			{Name: "closest", N: core.Const(300, 2000), Run: runClosestWith(obitag.FindClosests, false)},
+			{Name: "index", N: core.Const(150, 3000), Run: runIndex},
+			{Name: "identify", N: core.Const(100, 1800), Run: runIdentify, Race: true, NRace: core.Const(6, 24)},
+			{Name: "closest2", N: core.Const(150, 3000), Run: runClosestWith(obitag2.FindClosests, true)},
+			{Name: "closest", N: core.Const(300, 6000), Run: runClosestWith(obitag.FindClosests, false)},
 		},
 		MinNontrivial: 200,
 		RaceFiles:     anchored,
